@@ -20,6 +20,15 @@ CAST = {
     "publishers": [{"c": 8, "n": 1, "topics": [["x", "y"], ["x"]], "q": 1}],
 }
 
+# round 8: legal filters and topics that are not plain ASCII words - characters outside ASCII (whose UTF-8 encoding contains bytes of
+# every range), a level of 300 bytes, a level with a space, a '$' level below the first: none of them is a reason to end a session
+CAST_U = {
+    "nodes": [1, 2], "ka": 10,
+    "conns": {1: {"n": 1, "client": "a", "filters": [{"f": ["Stra\u00dfe", "+", "Gr\u00f6\u00dfe"], "q": 1}, {"f": ["\u5317", "#"], "q": 0}, {"f": ["L" * 300, "+"], "q": 1}]},
+              2: {"n": 2, "client": "b", "filters": [{"f": ["\u20ac \u00c4", "+"], "q": 0}, {"f": ["home", "$state", "#"], "q": 1}]}},
+    "publishers": [{"c": 8, "n": 1, "topics": [["Stra\u00dfe", "x", "Gr\u00f6\u00dfe"], ["\u5317"], ["\u20ac \u00c4", "\u00e9"], ["home", "$state"], ["L" * 300, "z"]], "q": 1}],
+}
+
 
 def takeover_then_failure():
     """A subscribed session on node 2 is displaced by a session of the same client id on node 1 and has not noticed yet (it would
@@ -60,7 +69,7 @@ def check(run):
     else:
         first_idle = first_idle[:: max(1, len(first_idle) // 1200)]
         rest = rest[:: max(1, len(rest) // 2500)]
-    scns = [sessionlib.build(h, CAST) for h in first_idle + rest]
+    scns = [sessionlib.build(h, CAST_U if i % 3 == 1 else CAST) for i, h in enumerate(first_idle + rest)]
     pf = sessionlib.gen(run, "c11pf", [1, 2], [1, 2], "N12", 4, ["short"], ["disconnect", "close"], maxidle=1, peerfail=True)
     pf = [h for h in pf if any(e["op"] == "peerfail" for e in h) and h[0]["op"] == "connect"]
     pf = pf[:: max(1, len(pf) // (60 if thorough else 8))]
